@@ -12,7 +12,8 @@ from .c01 import enum_histories, enum_word_removals, symbol_subset
 
 RULE = ('histories of add / remove / xml_x=None (removals at any position): (a) ALL histories of <=3 ops (quick; <=4 '
         'for alphabets <=4 in thorough) over a deterministic symbol subset of every type, (b) Hypothesis-drawn adaptive '
-        'histories.  Twin B = fresh element of the same class to which the surviving children\'s names are added in '
+        'histories, (c) ALL histories "k adds then one removal" over the FULL alphabet of every type (k<=2 quick, '
+        'k<=3 thorough).  Twin B = fresh element of the same class to which the surviving children\'s names are added in '
         'their surviving insertion order.  Compared: to_string text, or exception type and missing-children message; '
         'schema-ordered child names; and, for every alphabet symbol (sampled in quick), the accept/reject verdict of '
         'adding it, obtained by replaying on fresh objects.  Non-trivial = >=1 successful removal of a child that '
@@ -52,7 +53,8 @@ def check(el, ops, probe_syms):
 
     def F(kind, observed):
         return {'kind': kind, 'type': t, 'site': None, 'input': {'element': el, 'ops': ops},
-                'observed': observed, 'expected': 'as a fresh element holding %s' % survivors}
+                'observed': observed, 'expected': 'as a fresh element holding %s' % survivors,
+                'norm': {'type': t, 'ops': effective_ops(A)}}
     if any(v[0] != 'ok' for v in B.results):
         # the twin itself cannot be built in that order: no reference behaviour is defined by the property
         A.flags.add('twin-unbuildable')
@@ -102,6 +104,45 @@ def check(el, ops, probe_syms):
     return A, None
 
 
+def effective_ops(run):
+    """the history reduced to what took effect: successful adds and removals (removal index = position among the
+    children held at that moment); used to recognise a history independently of how it was spelt"""
+    out, held = [], []
+    for op, res in zip(run.ops, run.results):
+        if res[0] != 'ok':
+            continue
+        if op[0] == 'add':
+            out.append(['add', op[1]])
+            held.append(op[1])
+        elif op[0] == 'remove' and held:
+            i = op[1] % len(held)
+            out.append(['remove', i])
+            held.pop(i)
+        elif op[0] == 'dot_none' and op[1] in held:
+            i = held.index(op[1])
+            out.append(['remove', i])
+            held.pop(i)
+        elif op[0] in ('remove', 'dot_none'):
+            pass
+        else:
+            out.append(list(op))
+    return out
+
+
+BOUND_ADDS = 3
+
+
+def enum_add_remove(tkey, max_adds, firsts=None):
+    """ALL histories 'k adds (k <= max_adds) then one removal' over the FULL alphabet of the type"""
+    al = schema().alphabet(tkey)
+    for k in range(1, max_adds + 1):
+        for combo in itertools.product(al, repeat=k):
+            if firsts is not None and combo[0] not in firsts:
+                continue
+            for i in range(k):
+                yield [['add', a] for a in combo] + [['remove', i]]
+
+
 def replay_case(rec):
     inp = rec['input']
     s = schema()
@@ -133,6 +174,17 @@ def shards(ctx):
     jobs = [{'mode': 'exh', 'types': part} for part in gen.chunk(te, 16)]
     for i in range(16):
         jobs.append({'mode': 'random', 'index': i})
+    # complete 'adds then one removal' histories over the full alphabets; big alphabets are split by first symbol
+    s = schema()
+    small = []
+    for t, els in te:
+        al = s.alphabet(t)
+        if len(al) ** (2 if ctx.quick else BOUND_ADDS) > 4000:
+            for part in gen.chunk(al, 8):
+                jobs.append({'mode': 'add-remove', 'types': [(t, els)], 'firsts': part})
+        else:
+            small.append((t, els))
+    jobs += [{'mode': 'add-remove', 'types': part, 'firsts': None} for part in gen.chunk(small, 8)]
     return jobs
 
 
@@ -155,6 +207,21 @@ def run_shard(ctx, shard, acc):
                 if mark(A.ops, A.results, t):
                     A.flags.add('removed-nontrivial')
                 acc.case({'element': els[0], 'ops': ops}, nontrivial(A), len(ops))
+                if f:
+                    acc.fail(f, raise_=False)
+        return
+    if shard['mode'] == 'add-remove':
+        for t, els in shard['types']:
+            for ops in enum_add_remove(t, 2 if ctx.quick else BOUND_ADDS, shard.get('firsts')):
+                A, f = check(els[0], ops, [])
+                if A.e is None:
+                    break
+                if any(v[0] != 'ok' for v in A.results[:-1]):
+                    continue        # an add was refused: the same effective history is enumerated with fewer adds
+                if mark(A.ops, A.results, t):
+                    A.flags.add('removed-nontrivial')
+                acc.case({'element': els[0], 'ops': ops}, nontrivial(A), len(ops))
+                acc.count('add-remove-histories')
                 if f:
                     acc.fail(f, raise_=False)
         return
